@@ -35,6 +35,9 @@ ASSUMPTIONS = [
 ]
 
 
+KNOWN_PARALLEL = "C07-parallel-links-opposite-ends"
+
+
 def budget(tier):
     if tier == "quick":
         return {"examples": 700, "shards": 2}
@@ -82,7 +85,7 @@ def case_b(draw):
     if draw(st.integers(0, 5)) == 0:
         text = text[:-1]  # no newline after the last record
     return {"kind": "order", "gfa": text, "order": ",".join(order), "by_chrom": draw(st.integers(0, 1)) == 1,
-            "with_sequence": draw(st.integers(0, 1)) == 1}
+            "with_sequence": draw(st.integers(0, 1)) == 1, "via": draw(st.sampled_from(["api", "api", "cli"]))}
 
 
 def strategy(tier):
@@ -121,8 +124,22 @@ def run_io(case):
     got = link_counter(olinks)
     core.check(set(got) == set(want), "links written differ from links read: missing %s, invented %s",
                sorted(set(want) - set(got))[:3], sorted(set(got) - set(want))[:3])
+    known = []
+    # raw declarations per adjacency (ignoring the overlap): which ends declared it, with which overlaps
+    decl = {}
+    for line in case["gfa"].split("\n"):
+        f = line.split("\t")
+        if f[0] == "L":
+            key = models.canon_link(f[1], f[2], f[3], f[4])
+            decl.setdefault(key, set()).add(((f[1], f[2], f[3], f[4]) == key, f[5]))
     for k, c in got.items():
-        core.check(c <= want[k], "link %s written %d times, declared %d times", k, c, want[k])
+        if c <= want[k]:
+            continue
+        d_ = decl.get(k[0], set())
+        if len({ov for _, ov in d_}) >= 2 and len({end for end, _ in d_}) == 2:
+            known.append(KNOWN_PARALLEL)  # parallel links (different overlaps) declared from opposite ends
+            continue
+        raise core.Violation("link %s written %d times, declared %d times" % (k, c, want[k]))
     core.check("S" not in "".join(okinds).lstrip("S"), "an S line follows an L line in the written file")
     cl = ["io"]
     if any(l[0][1] == "-" and l[0][3] == "-" for l in links):
@@ -131,6 +148,9 @@ def run_io(case):
         cl.append("self_link")
     if any(c > 1 for c in want.values()):
         cl.append("adjacency_declared_twice")
+    ends_ = collections.Counter(l[0] for l in set(links))
+    if any(c > 1 for c in ends_.values()):
+        cl.append("parallel_links_different_overlap")
     if any(l[2] for l in links):
         cl.append("tagged_link")
     if any(":" in t.split(":", 2)[2] for s in segs.values() for t in s[1]):
@@ -139,7 +159,7 @@ def run_io(case):
         cl.append("soft_masked_bases")
     if not case["gfa"].endswith("\n"):
         cl.append("no_final_newline")
-    return core.Result(bool({"link_minus_minus", "self_link", "adjacency_declared_twice"} & set(cl)), cl)
+    return core.Result(bool({"link_minus_minus", "self_link", "adjacency_declared_twice"} & set(cl)), cl, sorted(set(known)))
 
 
 def audit_output(name, gfa, csv, nodes_in, segs_in, links_in, comp_nodes, with_sequence):
@@ -181,8 +201,19 @@ def run_order_case(case):
     named = c06.name_components(nodes, links_plain)
     order = case["order"].split(",")
     with core.workdir() as d:
-        res, files = ordergfa.run_order(d, case["gfa"], case["order"], case["by_chrom"], case["with_sequence"])
+        res, files = ordergfa.run_order(d, case["gfa"], case["order"], case["by_chrom"], case["with_sequence"],
+                                        via=case.get("via", "api"))
     core.check(res[0] == "ok", "order_gfa failed: %s", res)
+    # the input itself must still load to what its text says (nothing left behind by the run in this process)
+    from gaftools.gfa import GFA
+
+    with core.workdir() as d2:
+        core.write_text(d2 + "/g.gfa", case["gfa"])
+        r2 = core.call(GFA, d2 + "/g.gfa")
+    core.check(r2[0] == "ok", "loading the input after order_gfa failed: %s", r2)
+    for n, (seq_, tags_) in segs_in.items():
+        got_ = ["%s:%s:%s" % (k, v[0], v[1]) for k, v in r2[1].nodes[n].tags.items()]
+        core.check(got_ == list(tags_), "after order_gfa ran, loading the input gives segment %s the tags %s, the file says %s", n, got_, list(tags_))
     outs = ordergfa.outputs_by_chrom(files, case["by_chrom"], order)
     if case["by_chrom"]:
         for c in order:
@@ -198,7 +229,8 @@ def run_order_case(case):
             allnodes |= set(named[c])
         audit_output("complete", gfa, csv, nodes, segs_in, links_in, allnodes, case["with_sequence"])
         core.check(len(files) == 2, "unexpected files in the output directory: %s", sorted(files))
-    cl = ["order", "by_chrom" if case["by_chrom"] else "complete", "with_sequence" if case["with_sequence"] else "no_sequence"]
+    cl = ["order", "by_chrom" if case["by_chrom"] else "complete", "with_sequence" if case["with_sequence"] else "no_sequence",
+          "via:" + case.get("via", "api")]
     if len(order) >= 2:
         cl.append("chromosomes>=2")
     if any(t.startswith("BO:") for s in segs_in.values() for t in s[1]):
